@@ -240,6 +240,13 @@ sys.exit(0)
             # same unit: a == b forces x == y, and Python hashes equal numbers equally
             acc.prove(case, p, z3.Implies(o["eq_ab"], x == y), f"{cfg}#p{i}:hash", key, sig,
                       "a == b with different magnitudes in one unit", hreplay)
+            # ... which settles the contract only if __hash__ hashes the number: witnesses of
+            # this path's a == b (generic, integral, zero) go through the real hash() in every
+            # numeric type and representation of the same value (main: hash_witnesses)
+            for extra in ([x != 0, z3.Not(z3.IsInt(x))], [x != 0, z3.IsInt(x)], [x == 0]):
+                m = acc.P.shaped_model([p.cond, o["eq_ab"], *extra], list(case.vars.values()))
+                if m is not None:
+                    acc.out.setdefault("witness", []).append((uc, str(m["x"])))
         else:
             acc.prove(case, p, hgoal, f"{cfg}#p{i}:hash", key, sig,
                       f"{cfg}: a == b but hash((x,U)) != hash((y,V))", hreplay)
@@ -479,6 +486,69 @@ sys.exit(0)
     acc.out["selfchecked"] += case.selfchecked
 
 
+HASH_LIB = """
+def representations(v):
+    from fractions import Fraction
+    f = Fraction(v)
+    out = []
+    if f.denominator == 1:
+        out.append(int(f))
+    if Fraction(float(f)) == f:
+        out.append(float(f))
+        if f == 0:
+            out.append(-0.0)
+    d = Decimal(f.numerator) / Decimal(f.denominator)
+    if Fraction(d) == f:
+        out += [d, d.normalize(), d.scaleb(0) * Decimal('1.00'), d * Decimal('1.0000')]
+        if f == 0:
+            out.append(Decimal('-0'))
+    return out
+def disagreements(U, v):
+    reps = representations(v)
+    bad = []
+    for i, r1 in enumerate(reps):
+        for r2 in reps[i:]:
+            a, b = r1 * U, r2 * U
+            if a == b and hash(a) != hash(b):
+                bad.append((repr(r1), repr(r2)))
+    return bad
+"""
+
+
+def hash_witnesses(rep: report.Report, witnesses: List[Tuple[str, str]]) -> None:
+    """Equal same-unit quantities written with different numeric types / Decimal exponents must
+    hash equally: the solver's a == b witnesses go through the real hash()."""
+    import json
+    import subprocess
+
+    ws = sorted(set(witnesses))
+    if not ws:
+        return
+    code = HEADER + HASH_LIB + f"""
+import json
+out = []
+for uc, v in {ws!r}:
+    out.append((uc, v, disagreements(eval(uc), v)))
+print(json.dumps(out))
+"""
+    p = subprocess.run([report.REPO_PY, "-c", code], capture_output=True, text=True, timeout=600, cwd="/")
+    if p.returncode != 0:
+        raise symnum.HarnessError(f"hash witness run failed: {p.stderr[-400:]}")
+    for uc, v, bad in json.loads(p.stdout.strip().splitlines()[-1]):
+        rep.ob("sat" if bad else "unsat", f"hash agrees across representations of {v} {uc}", ("hashw", uc, v))
+        if bad:
+            rep.violation("C12:hash:same-unit:representations",
+                          f"{v} {uc}: equal quantities written as {bad[0][0]} and {bad[0][1]} hash differently",
+                          HEADER + HASH_LIB + f"""
+bad = disagreements({uc}, {v!r})
+print(bad)
+if bad:
+    print('REPRODUCED: equal quantities of one unit with different hashes'); sys.exit(1)
+sys.exit(0)
+""")
+    rep.coverage["hash_witnesses"] = len(ws)
+
+
 def worker(task: Tuple) -> Dict[str, Any]:
     families.boot()
     acc = work.Acc()
@@ -539,6 +609,7 @@ def main(tier: str, selftest_cases: int = 0) -> int:
     tasks = families.shuffled(tasks_for(tier), rep.seed)
     results = par.run("props.c12", "worker", tasks)
     work.merge(rep, results)
+    hash_witnesses(rep, [tuple(w) for r in results for w in r.get("witness", [])])
     rep.functions.update(FUNCTIONS)
     rep.coverage["configurations"] = len(tasks)
     rep.coverage["exhaustive"] = True
